@@ -53,6 +53,8 @@ def kFOREACH : List Char := ['F','O','R','E','A','C','H']
 def kDROP : List Char := ['D','R','O','P']
 def kREBUILD : List Char := ['R','E','B','U','I','L','D']
 def kMATCH : List Char := ['M','A','T','C','H']
+def kEXPLAIN : List Char := ['E','X','P','L','A','I','N']
+def kPROFILE : List Char := ['P','R','O','F','I','L','E']
 
 def spaced (k : List Char) : List Char := ' ' :: k ++ [' ']
 def spacedL (k : List Char) : List Char := ' ' :: k
@@ -83,12 +85,16 @@ inductive Mode where
   | code
   | str (q : Char)      -- inside `'…'`, `"…"` or a back-quoted name
   | esc (q : Char)      -- after a backslash inside quoted text
+  | slash               -- after a `/` in code: `//` and `/*` open a comment (`COMMENT` of cypher.pest)
+  | line                -- inside `// … <LF>`
+  | block               -- inside `/* … */`
+  | star                -- inside a block comment, after a `*`
 deriving DecidableEq, Repr
 
 def flush (cur : List Char) : List (List Char) := if cur.isEmpty then [] else [cur]
 
 /-- The upper-cased words (maximal runs of letters, digits, `_`) of a statement that lie
-outside quoted text, in order.  `cur` is the word being read. -/
+outside quoted text and outside comments, in order.  `cur` is the word being read. -/
 def scan : Mode → List Char → List Char → List (List Char)
   | _, cur, [] => flush cur
   | .esc q, cur, _ :: cs => scan (.str q) cur cs
@@ -96,9 +102,22 @@ def scan : Mode → List Char → List Char → List (List Char)
       if c == '\\' then scan (.esc q) cur cs
       else if c == q then scan .code cur cs
       else scan (.str q) cur cs
+  | .line, cur, c :: cs => if c == '\n' then scan .code cur cs else scan .line cur cs
+  | .block, cur, c :: cs => if c == '*' then scan .star cur cs else scan .block cur cs
+  | .star, cur, c :: cs =>
+      if c == '/' then scan .code cur cs
+      else if c == '*' then scan .star cur cs
+      else scan .block cur cs
+  | .slash, cur, c :: cs =>       -- `cur` is empty: the `/` flushed it
+      if c == '/' then scan .line cur cs
+      else if c == '*' then scan .block cur cs
+      else if isWordChar c then scan .code (cur ++ [c.toUpper]) cs
+      else if isQuote c then scan (.str c) [] cs
+      else scan .code [] cs
   | .code, cur, c :: cs =>
       if isWordChar c then scan .code (cur ++ [c.toUpper]) cs
       else if isQuote c then flush cur ++ scan (.str c) [] cs
+      else if c == '/' then flush cur ++ scan .slash [] cs
       else flush cur ++ scan .code [] cs
 
 /-- clause keywords whose plan has `is_write` (data writes and DDL) -/
@@ -110,12 +129,36 @@ def isWriteWord (w : List Char) : Bool := writeWords.contains w
 /-- `QueryEngine::is_write_query` (idealised): the statement has a write clause -/
 def routeNew (q : List Char) : Bool := (scan .code [] q).any isWriteWord
 
+/-- what may precede the first clause (`explain_clause` of cypher.pest) -/
+inductive Prefix where
+  | none | explain | profile
+deriving DecidableEq, Repr
+
+def prefixOfWords : List (List Char) → Prefix
+  | w :: _ => if w == kEXPLAIN then .explain else if w == kPROFILE then .profile else .none
+  | [] => .none
+
+/-- `Query::explain` / `Query::profile` of the parsed statement (idealised: the first word) -/
+def planPrefix (q : List Char) : Prefix := prefixOfWords (scan .code [] q)
+
+/-- A statement that really writes when the engine runs it.  `EXPLAIN` describes the plan and
+executes nothing (both executors return the description before anything else); `PROFILE` is
+**not** such a request: `MutQueryExecutor` ignores the flag and runs the statement, the read
+executor refuses a write plan before it looks at the flag. -/
+def executesWrite (q : List Char) : Bool := routeNew q && planPrefix q != .explain
+
+/-- the seeded defect class "an option vetoes the planner in one front end": plan requests
+(`EXPLAIN` *and* `PROFILE`) kept off the write path -/
+def routePlanVeto (q : List Char) : Bool := planPrefix q == .none && routeNew q
+
 /-! ## token-level statements and their renderings -/
 
 inductive Tok where
   | word (w : List Char)            -- keyword, identifier or number, as written (any case)
   | str (q : Char) (s : List Char)  -- quoted text, delimiter `q`
   | sym (c : Char)                  -- punctuation
+  | lineComment (s : List Char)     -- `//` … LF
+  | blockComment (s : List Char)    -- `/*` … `*/`
 deriving DecidableEq, Repr
 
 /-- what is written after a token -/
@@ -134,6 +177,8 @@ def Tok.chars : Tok → List Char
   | .word w => w
   | .str q s => q :: (s ++ [q])
   | .sym c => [c]
+  | .lineComment s => '/' :: '/' :: (s ++ ['\n'])
+  | .blockComment s => '/' :: '*' :: (s ++ ['*', '/'])
 
 def render : List (Tok × Sep) → List Char
   | [] => []
@@ -142,7 +187,9 @@ def render : List (Tok × Sep) → List Char
 def Tok.wf : Tok → Bool
   | .word w => !w.isEmpty && w.all isWordChar
   | .str q s => isQuote q && s.all (fun c => c != q && c != '\\')
-  | .sym c => !isWordChar c && !isQuote c
+  | .sym c => !isWordChar c && !isQuote c && c != '/'
+  | .lineComment s => s.all (fun c => c != '\n')
+  | .blockComment s => s.all (fun c => c != '*')
 
 def startsWord : List (Tok × Sep) → Bool
   | (.word _, _) :: _ => true
@@ -164,6 +211,19 @@ def wordsOf : List (Tok × Sep) → List (List Char)
 
 /-- the statement has a clause that writes (identifiers are assumed not to be reserved words) -/
 def hasWriteClause (xs : List (Tok × Sep)) : Bool := (wordsOf xs).any isWriteWord
+
+/-- the statement's `EXPLAIN` / `PROFILE` prefix: its first word -/
+def prefixTok (xs : List (Tok × Sep)) : Prefix := prefixOfWords (wordsOf xs)
+
+def executesWriteTok (xs : List (Tok × Sep)) : Bool := hasWriteClause xs && prefixTok xs != .explain
+
+/-- whitespace before the statement -/
+def leadChars : List Sep → List Char
+  | [] => []
+  | s :: r => s.chars ++ leadChars r
+
+/-- a statement as sent: leading whitespace, then the tokens -/
+def renderL (lead : List Sep) (xs : List (Tok × Sep)) : List Char := leadChars lead ++ render xs
 
 /-! ## the front end over an arbitrary engine -/
 
@@ -200,6 +260,37 @@ running every read through both executors.) -/
 def Engine.ReadAgree {Q G R : Type} (e : Engine Q G R) : Prop :=
   ∀ q g, e.isWritePlan q = false → e.evalMut q g = (e.evalRead q g, g)
 
+/-- **The engine run directly**: the engine's documented dispatch — `QueryExecutor` for a plan
+that is not a write, `MutQueryExecutor` for a write plan (an embedder has no other choice: the
+read executor refuses write plans).  It is the reference of the property; it differs from
+`execMut` exactly where `ReadAgree` fails in the real engine (`PROFILE` of a read is reported
+only by the read executor). -/
+def engineRun {Q G R : Type} (e : Engine Q G R) (q : Q) (g : G) : Reply R × G :=
+  if e.isWritePlan q then execMut e q g else execRead e q g
+
+/-- results of a statement with an optional plan prefix -/
+inductive PR (R : Type) where
+  | rows (r : R)          -- the statement's own result
+  | plan                  -- `EXPLAIN`: the plan description, nothing executed
+  | profile (r : R)       -- `PROFILE` of a read on the read executor: executed and timed
+deriving DecidableEq, Repr
+
+/-- What the executors do with `EXPLAIN` / `PROFILE` (executor/mod.rs): the planner ignores the
+prefix; both executors answer `EXPLAIN` with the plan before anything else; the read executor
+refuses a write plan *before* looking at `PROFILE`; `MutQueryExecutor` ignores `PROFILE` and
+runs the statement. -/
+def withPrefix {Q G R : Type} (b : Engine Q G R) : Engine (Prefix × Q) G (PR R) where
+  isWritePlan := fun pq => b.isWritePlan pq.2
+  evalRead := fun pq g =>
+    match pq.1 with
+    | .explain => .plan
+    | .profile => .profile (b.evalRead pq.2 g)
+    | .none => .rows (b.evalRead pq.2 g)
+  evalMut := fun pq g =>
+    match pq.1 with
+    | .explain => (.plan, g)
+    | _ => let p := b.evalMut pq.2 g; (.rows p.1, p.2)
+
 /-- a tiny concrete engine over statement texts, for non-vacuity: the graph is a node count,
 a write statement adds a node and returns nothing, a read returns the count -/
 def toyEngine : Engine (List Char) Nat (Option Nat) where
@@ -209,12 +300,12 @@ def toyEngine : Engine (List Char) Nat (Option Nat) where
 
 /-! ## executable specification, on observations
 
-One case = one statement run on three identical graphs: directly on `MutQueryExecutor`, through
+One case = one statement run on three identical graphs: directly on the engine (`engineRun`), through
 `CommandHandler::handle_command` and through the axum router.  `α` is the canonical text of an
 outcome (rows or error class) or of a full graph dump. -/
 
 structure Obs (α β : Type) where
-  hasWrite : Bool        -- the statement has a write clause
+  hasWrite : Bool        -- the statement has a write clause and is not an `EXPLAIN` (`executesWrite`)
   pre : β                -- dump before
   engOut : α
   engPost : β
@@ -239,13 +330,13 @@ def specFrontCode {α β : Type} [BEq α] [BEq β] (o : Obs α β) : Nat :=
 def specFront {α β : Type} [BEq α] [BEq β] (o : Obs α β) : Bool := specFrontCode o == 0
 
 /-- the observations the model predicts for a statement `q` on graph `g` when the two front
-ends route with `routeR` / `routeH` -/
-def modelObs {Q G R : Type} (e : Engine Q G R) (routeR routeH : Q → Bool) (q : Q) (g : G) :
+ends route with `routeR` / `routeH`; `ex q` = the statement executes a write -/
+def modelObs {Q G R : Type} (e : Engine Q G R) (ex : Q → Bool) (routeR routeH : Q → Bool) (q : Q) (g : G) :
     Obs (Reply R) G :=
-  let en := execMut e q g
+  let en := engineRun e q g
   let r := front e routeR q g
   let h := front e routeH q g
-  { hasWrite := e.isWritePlan q
+  { hasWrite := ex q
     pre := g
     engOut := en.1, engPost := en.2
     respOut := r.1, respPost := r.2
